@@ -240,8 +240,10 @@ func deepPairs(c *genCtx, sw *shardWriter, j *jb) {
 		firsts = append(firsts, mk("[", "]", "1", n))
 	}
 	firsts = append(firsts, mk(`{"a":`, "}", "1", 2), mk(`[{"a":`, "}]", "1", 3))
+	// every stack length just beyond the limit (a traversal leaves one slot less than the document is deep)
+	firsts = append(firsts, mk("[", "]", "1", 10002), mk("[", "]", "1", 10003), mk("[", "]", "1", 10004), mk(`{"a":`, "}", "1", 10003))
 	seconds := append([]bufStep{}, deep...)
-	seconds = append(seconds, mk("[", "]", "", 8200), mk(`{"a":`, "}", "1", 6200), mk(`[{"a":`, "}]", "1", 4600), mk("[", "]", "7", 5001))
+	seconds = append(seconds, mk("[", "]", "", 30000), mk("[", "]", "", 8200), mk(`{"a":`, "}", "1", 6200), mk(`[{"a":`, "}]", "1", 4600), mk("[", "]", "7", 5001))
 	type fm struct{ fn, mode int }
 	fms := []fm{{1, 0}, {2, 0}, {3, 0}, {4, hmZero}, {5, hmZero}, {4, hmSkipSame}, {5, hmFastSame}}
 	n := 0
